@@ -49,6 +49,17 @@ def _solve_one(args):
         else:
             res["verdict"] = "undecided"
             res["reason"] = s.reason_unknown()
+            # E-matching only (no model-based quantifier instantiation): z3 stops quickly with `unknown` and a CANDIDATE model
+            # that satisfies the ground part and every axiom instance it generated - good real-valued candidates for the
+            # replay when the hypotheses are quantified axioms (exp/ln, reflect, NS additivity)
+            m = _ematch_candidate(smt2, min(timeout_ms, 8000))
+            if m is not None:
+                res["verdict"], res["model"], res["backend"] = m[0], m[1], res["backend"] + "+ematch"
+                if m[0] == "refuted":
+                    res["seconds"] = time.time() - t0
+                    return res
+                res["seconds"] = time.time() - t0
+                return res
             # a counterexample with small integers is still a counterexample: retry the same query with every
             # integer constant confined to a small box (only `sat` is used from this attempt)
             for bound in (8, 40):
@@ -94,6 +105,23 @@ def _int_consts(fs):
             out[x.decl().name()] = x
         stack.extend(x.children())
     return list(out.values())
+
+
+def _ematch_candidate(smt2, timeout_ms):
+    s = z3.Solver()
+    s.set("timeout", timeout_ms)
+    s.set("smt.mbqi", False)
+    s.set("smt.auto_config", False)
+    try:
+        s.from_string(smt2)
+        r = s.check()
+        if r == z3.sat:
+            return "refuted", _model_dict(s.model())
+        if r == z3.unknown and "incomplete" in s.reason_unknown():
+            return "candidate", _model_dict(s.model())
+    except z3.Z3Exception:
+        pass
+    return None
 
 
 def _has_q(e):
@@ -187,6 +215,30 @@ def check_sat(formulas, timeout_ms=5000):
     if r == z3.sat:
         return "sat", _model_dict(s.model())
     return ("unsat" if r == z3.unsat else "unknown"), None
+
+
+def model_real(model, name, default=None):
+    """float value of a real/int symbol in a model dict ('7/2', '-3', '(- (/ 1 3))' ... )"""
+    if model is None:
+        return default
+    for k, v in model.items():
+        if k.split("!")[0] == name:
+            t = v.strip().replace("(", " ").replace(")", " ").split()
+            try:
+                neg = False
+                if t and t[0] == "-":
+                    neg, t = True, t[1:]
+                if len(t) == 1:
+                    from fractions import Fraction
+                    x = float(Fraction(t[0].rstrip("?")))
+                elif len(t) == 3 and t[0] == "/":
+                    x = float(t[1]) / float(t[2])
+                else:
+                    return default
+                return -x if neg else x
+            except (ValueError, ZeroDivisionError):
+                return default
+    return default
 
 
 _num = re.compile(r"^-?\d+$")
